@@ -25,6 +25,7 @@ Inductive goval : Type :=
 | VInt (k : ikind) (z : Z)                     (* typed integers: the mathematical value *)
 | VJnum (lit : str) (asint : option Z) (asflt : option f64)   (* json.Number: text, Int64(), Float64() *)
 | VArr (id : Z) (l : list goval)               (* []interface{}; id = identity of the slice *)
+| VSlice (et : Z) (l : list goval)             (* typed slice []T; et = code of T (harness table); elements are T values *)
 | VObj (id : Z) (m : list (str * goval)).      (* map[string]interface{} in the iteration order of this call *)
 
 (* outcome of validate.MultipleOf and friends *)
@@ -39,6 +40,8 @@ Record numops : Type := {
   n_of_int : Z -> f64;                (* float64(int64 / uint64 value) *)
   n_to_int64 : f64 -> Z;              (* int64(f), amd64 *)
   n_to_uint64 : f64 -> Z;             (* uint64(f), amd64 *)
+  n_exact_int : f64 -> option Z;      (* Some z when f is finite and its exact value is the integer z *)
+  n_fits_f32 : f64 -> bool;           (* strconv.ParseFloat(FormatFloat(f,'f',-1,64), 32) does not overflow *)
 }.
 
 (* What the code asks the Go standard library and the caller's registry about strings. *)
@@ -74,6 +77,7 @@ Definition k_default : str := 19.
 Definition k_example : str := 20.
 Definition k_examples : str := 21.
 Definition k_file : str := 22.
+Definition k_byte : str := 23.
 Definition first_free_id : str := 32.
 
 (* ---- lookup tables for oracles shipped with a case ---- *)
@@ -120,6 +124,8 @@ Fixpoint get_goval_fuel (fuel : nat) (s : sx) : option goval :=
           end
       | L [A 6; A id; L l] =>
           match mapM getv l with Some l => Some (VArr id l) | None => None end
+      | L [A 8; A et; L l] =>
+          match mapM getv l with Some l => Some (VSlice et l) | None => None end
       | L [A 7; A id; L m] =>
           match mapM (fun e => match e with
                                | L [A k; v] => match getv v with Some v => Some (k, v) | None => None end
